@@ -82,6 +82,10 @@ func (m *collection) runMerger() {
 
 	go m.idleMergerWaker()
 
+	// True when the last cycle ended with a merged stackDirtyMid that
+	// the persister, still busy, could not take over.
+	var handoverPending bool
+
 OUTER:
 	for {
 		atomic.AddUint64(&m.stats.TotMergerLoop, 1)
@@ -96,7 +100,8 @@ OUTER:
 		// Wait for new stackDirtyTop entries and/or pings.
 
 		var stopped, mergeAll bool
-		stopped, mergeAll, pings = m.mergerWaitForWork(pings)
+		stopped, mergeAll, pings = m.mergerWaitForWork(pings, handoverPending)
+		handoverPending = false
 		if stopped {
 			return
 		}
@@ -161,7 +166,7 @@ OUTER:
 
 		verifGate("merger:handover", m)
 
-		m.mergerNotifyPersister()
+		handoverPending = m.mergerNotifyPersister()
 
 		// ---------------------------------------------
 
@@ -220,7 +225,7 @@ func (m *collection) idleMergerWaker() {
 // mergerWaitForWork() is a helper method that blocks until there's
 // either pings or incoming segments (from ExecuteBatch()) of work for
 // the merger.
-func (m *collection) mergerWaitForWork(pings []ping) (
+func (m *collection) mergerWaitForWork(pings []ping, handoverPending bool) (
 	stopped, mergeAll bool, pingsOut []ping) {
 	var waitDirtyIncomingCh chan struct{}
 
@@ -231,7 +236,16 @@ func (m *collection) mergerWaitForWork(pings []ping) (
 	// Any executed batch leaves a non-nil stackDirtyTop, even a batch
 	// that only touches (or only deletes) child collections and so has
 	// no top-level segment of its own.
-	if m.stackDirtyTop == nil {
+	//
+	// A stackDirtyMid that the busy persister could not take over at
+	// the end of the last cycle is work, too, once the persister is
+	// free: it may have finished its round since (and, finding the
+	// merger not yet asleep, did not ping it).  Going to sleep now
+	// would leave both sides waiting for each other.
+	retryHandover := handoverPending &&
+		m.stackDirtyMid != nil && m.stackDirtyBase == nil
+
+	if m.stackDirtyTop == nil && !retryHandover {
 		m.waitDirtyIncomingCh = make(chan struct{})
 		waitDirtyIncomingCh = m.waitDirtyIncomingCh
 	}
@@ -347,9 +361,9 @@ func (m *collection) mergerMain(stackDirtyMid, stackDirtyBase *segmentStack,
 // mergerNotifyPersister() is a helper method that notifies the
 // optional persister goroutine that there's a dirty segment stack
 // that needs persistence.
-func (m *collection) mergerNotifyPersister() {
+func (m *collection) mergerNotifyPersister() (handoverPending bool) {
 	if m.options.LowerLevelUpdate == nil {
-		return
+		return false
 	}
 
 	m.m.Lock()
@@ -382,6 +396,8 @@ func (m *collection) mergerNotifyPersister() {
 		m.stackDirtyBaseCond.Broadcast()
 	} else {
 		atomic.AddUint64(&m.stats.TotMergerLowerLevelNotifySkip, 1)
+
+		handoverPending = m.stackDirtyMid != nil
 	}
 
 	var waitDirtyOutgoingCh chan struct{}
@@ -405,7 +421,7 @@ func (m *collection) mergerNotifyPersister() {
 		select {
 		case <-m.stopCh:
 			atomic.AddUint64(&m.stats.TotMergerWaitOutgoingStop, 1)
-			return
+			return handoverPending
 
 		case <-waitDirtyOutgoingCh:
 			// NO-OP.
@@ -415,4 +431,6 @@ func (m *collection) mergerNotifyPersister() {
 	} else {
 		atomic.AddUint64(&m.stats.TotMergerWaitOutgoingSkip, 1)
 	}
+
+	return handoverPending
 }
